@@ -304,6 +304,9 @@ def run(ctx):
     nontrivial = set()
     samples = []
 
+    keeps_blank = join_keeps_blank_last()
+    stats["probe_join_keeps_blank_last"] = keeps_blank
+
     # ------------------------------------------------ generic family
     batch = []
     dom_batch = []      # (case, python in_domain, implementation round trip ok, request) for the theorem's domain
@@ -325,7 +328,11 @@ def run(ctx):
             stats["generator_rejects"] = stats.get("generator_rejects", 0) + 1
             continue
         dom = (not X) and rowgen.in_domain(t, val, [], T)
+        # the same without blank str values in packed models: the theorem's domain on a tree whose join drops an
+        # empty last element
+        dom_nb = dom and rowgen.in_domain(t, val, [], T, blank_values=False)
         stats["in_domain" if dom else "out_of_domain"] += 1
+        stats["in_domain_packed_blank_value"] = stats.get("in_domain_packed_blank_value", 0) + (dom and not dom_nb)
         if un[0] != "ok":
             stats["impl_unparse_error"] += 1
         elif back[0] != "ok":
@@ -338,7 +345,19 @@ def run(ctx):
                 raw = run_cli_mode(lambda: rowlib.natives(parser.parse_row(parser.unparse_row(inst, set(T), set(X)), {})))
                 ok = raw[0] == "ok" and _deep_eq(raw[1], val)
             if not ok:
-                v.failing_input("generic-roundtrip",
+                key = "generic-roundtrip"
+                if not dom_nb:
+                    # causal classification: the same instance with the blank str fields of its packed models filled
+                    # is inside the narrower domain and round-trips
+                    val2 = fill_packed_blanks(t, val, [], T)
+                    try:
+                        if rowgen.in_domain(t, val2, [], T, blank_values=False):
+                            _, _, un2, back2 = impl_case(t, val2, T, X)
+                            if un2[0] == "ok" and back2[0] == "ok" and _deep_eq(back2[1], val2):
+                                key = "packed-model-blank-value-under-nonblank-default"
+                    except Exception:
+                        pass
+                v.failing_input(key,
                                 f"parse_row(unparse_row(m, L)) != m: model={rowlib.e_ty(t)[:0]}{_show_ty(t)} value={val!r} targets={T} -> cells={un[1] if un[0]=='ok' else un} back={back}",
                                 dict(fn="generic", ty=_jsonable_ty(t), value=val, targets=T, excluded=X))
             if un[0] == "ok":
@@ -356,7 +375,7 @@ def run(ctx):
                 continue
             if not X:
                 rt_ok = un[0] == "ok" and back[0] == "ok" and _deep_eq(back[1], val)
-                dom_batch.append((dict(model=_show_ty(t), value=val, targets=T), dom, rt_ok,
+                dom_batch.append((dict(model=_show_ty(t), value=val, targets=T), dom if keeps_blank else dom_nb, rt_ok,
                                   dict(fn="generic", ty=_jsonable_ty(t), value=val, targets=T, excluded=X),
                                   f"(107 6 {rm} {ev} {rowlib.e_strs(T)})"))
             reqs = [f"(107 2 {rm} {ev} {rowlib.e_strs(T)} {rowlib.e_strs(X)})"]
@@ -383,7 +402,7 @@ def run(ctx):
         flush_domain(ctx, m, dom_batch, stats)
 
     # ------------------------------------------------ the witnesses of the _refuted theorems, on the implementation
-    probe_refutations(ctx, stats)
+    probe_refutations(ctx, stats, keeps_blank)
     probe_column_orders(ctx, stats)
 
     # ------------------------------------------------ matches_headers on its own
@@ -445,6 +464,37 @@ def _rowfix_tables():
         return mod
     finally:
         sys.path.pop(0)
+
+
+def join_keeps_blank_last():
+    """the translator's probe (does join_from_lists keep an empty last element by a trailing separator?); None when
+    the translator refuses the tree.  Used for correspondence only — which domain the theorem has on this tree, which
+    cells its witness states —, never by the oracle."""
+    try:
+        return bool(_rowfix_tables()._probe_join([]))
+    except Exception:
+        return None
+
+
+def fill_packed_blanks(t, v, comps, T):
+    """the instance with every blank str field of a PACKED model node set to "z" (the counterfactual of finding
+    packed-model-blank-value-under-nonblank-default)"""
+    k = t[0]
+    if k == "model":
+        packed = rowgen.matches(comps, T)
+        out = {}
+        for (n, ft, d) in t[2]:
+            h = t[4].get(n, n)
+            if packed:
+                out[n] = "z" if ft[0] == "str" and v[n] == "" and d != "" else v[n]
+            elif h == n:
+                out[n] = fill_packed_blanks(ft, v[n], comps + [h], T)
+            else:
+                out[n] = v[n]
+        return out
+    if k == "list" and not rowgen.matches(comps, T):
+        return [fill_packed_blanks(t[1], x, comps + [str(i + 1)], T) for i, x in enumerate(v)]
+    return v
 
 
 def is_formula_text(s):
@@ -571,7 +621,7 @@ def probe_column_orders(ctx, stats):
         ctx.disagree("column-order witness: the theorem says parse_row fails for u.2 before u.1", "ex", "Err EAssert", bad)
 
 
-def probe_refutations(ctx, stats):
+def probe_refutations(ctx, stats, keeps_blank=None):
     """Replays the witnesses of C07_*_refuted on the real RowParser: the implementation must do
     what the theorems say the model does.  The one witness that lies inside the domain of the
     property TEXT (a blank value under a non-blank default in a packed model) is a failing
@@ -589,16 +639,23 @@ def probe_refutations(ctx, stats):
             if un[0] == "ok":
                 ctx.disagree("refutation witness: the theorem says unparse_row fails", name, "Err EJoin", un)
             continue
+        if name == "packed_blank":
+            # ORACLE (the instance is inside the domain of the property text): it must come back
+            if un[0] != "ok" or back[0] != "ok" or not _deep_eq(back[1], val):
+                ctx.v.failing_input("packed-model-blank-value-under-nonblank-default",
+                                    f"model={_show_ty(t)} value={val!r} targets={T} -> cells={un!r} -> back={back!r}",
+                                    dict(fn="generic", ty=_jsonable_ty(t), value=val, targets=T, excluded=[]))
+            # CORRESPONDENCE with C07_packed_blank_decided, whose branch the translator's probe selects
+            if keeps_blank is None:
+                continue
+            if keeps_blank:
+                cells, back_want = [("k", "q"), ("s", "a;;|")], val
         if un[0] != "ok" or un[1] != cells:
             ctx.disagree("refutation witness: cells", name, cells, un)
             continue
         if back[0] != "ok" or not _deep_eq(back[1], back_want):
             ctx.disagree("refutation witness: instance read back", name, back_want, back)
             continue
-        if name == "packed_blank":
-            ctx.v.failing_input("packed-model-blank-value-under-nonblank-default",
-                                f"model={_show_ty(t)} value={val!r} targets={T} -> cells={cells} -> back={back[1]!r}",
-                                dict(fn="generic", ty=_jsonable_ty(t), value=val, targets=T, excluded=[]))
 
 
 def flush_generic(ctx, m, batch, stats):
